@@ -107,6 +107,30 @@ pub fn check_spec(spec: &FileSpec, only: Option<&Query>) -> Result<(u64, usize),
     if both_failed == qs.len() && !qs.is_empty() && only.is_none() {
         return Err(("prerequisite".into(), "every query fails on both versions".into(), None));
     }
+    // two cursors over handles that share ONE file position (duplicated OS handles), advanced
+    // alternately: the V1 file must still scan like its content
+    if only.is_none() && model.len() >= 2 {
+        use std::cell::RefCell;
+        let shared = crate::c06::SharedPos(std::rc::Rc::new(RefCell::new(std::io::Cursor::new(v1.clone()))));
+        let r = crate::common::guarded(|| -> Result<(), String> {
+            let e = |e: grenad::Error| e.to_string();
+            let mut a = grenad::Reader::new(shared.clone()).map_err(e)?.into_cursor().map_err(e)?;
+            let mut b = grenad::Reader::new(shared.clone()).map_err(e)?.into_cursor().map_err(e)?;
+            for i in 0..model.len() {
+                for (name, c) in [("first", &mut a), ("second", &mut b)] {
+                    let got = crate::common::own(c.move_on_next().map_err(e)?);
+                    if got != Some(model.entries[i].clone()) {
+                        return Err(format!("{name} of two alternately advanced cursors sharing one file position returned a wrong entry #{i}"));
+                    }
+                }
+            }
+            Ok(())
+        });
+        match r {
+            Ok(Ok(())) => {}
+            Ok(Err(m)) | Err(m) => return Err(("differs".into(), format!("V1 file: {m}"), None)),
+        }
+    }
     // the stored count is metadata only: twins whose trailers store a different count (0 over
     // real content, 1, around 2^32, u64::MAX) must report that stored count and still answer every
     // query alike (a small sample of queries; done for files with few entries)
